@@ -15,6 +15,7 @@ FAMILIES = {
     "links": "harness.check_links",
     "validation": "harness.check_validation",
     "registry": "harness.check_registry",
+    "save": "harness.check_save",
 }
 # property -> families whose judges print verdicts for it
 PROPS = {
@@ -26,6 +27,7 @@ PROPS = {
     "C12": ["links"],
     "C08": ["validation"],
     "C19": ["registry"],
+    "C07": ["save"],
 }
 EXPLAIN = {}
 
